@@ -1033,11 +1033,12 @@ pub mod verif_fwd {
     /// What `run_udp` / `run_tcp` put on the wire for `in_reply` (without the
     /// TCP length prefix).
     pub fn wire_bytes(msg: &DnsMessage, in_reply: &dnspkt::DNSPkt) -> Vec<u8> {
-        match msg.protocol {
-            Protocol::Udp => in_reply.serialise(),
-            Protocol::Tcp => {
-                DnsListenerHandler::prepare_to_send(in_reply, msg.in_query.bufsize as usize)
-            }
-        }
+        DnsListenerHandler::prepare_to_send(
+            in_reply,
+            response_size_limit(&msg.protocol, msg.in_query.bufsize),
+        )
+    }
+    pub fn response_size_limit(tcp: bool, advertised: u16) -> usize {
+        super::response_size_limit(if tcp { &Protocol::Tcp } else { &Protocol::Udp }, advertised)
     }
 }
